@@ -28,6 +28,7 @@ type jqState struct {
 	w       *world.World
 	seed    int64
 	agents  map[string]uint32 // symbol -> real id
+	parents map[string]uint32 // pivot mode: symbol -> the id of the agent it sits behind (its tasks wait in that agent's queue, wrapped)
 	nextID  int
 	nextReq uint32
 	reqID   map[uint32]int // real request id -> abstract job id
@@ -100,6 +101,9 @@ func rawData(n int) []byte {
 func (s *jqState) project() map[string]any {
 	q := map[string]any{}
 	for sym, id := range s.agents {
+		if p, ok := s.parents[sym]; ok {
+			id = p
+		}
 		a := s.w.Agent(id)
 		list := []jqJob{}
 		if a != nil {
@@ -112,12 +116,33 @@ func (s *jqState) project() map[string]any {
 	return map[string]any{"queue": q}
 }
 
+// reqOf: the request id a queued job stands for; a COMMAND_PIVOT wrapper carries the wrapped task (command, request id,
+// length, body) as its last argument
+func reqOf(j agent.Job) uint32 {
+	if j.Command == agent.COMMAND_PIVOT && len(j.Data) == 3 {
+		// the last argument is what the pivot writes to the pipe: [agent id][length][command, request id, length, body]
+		if p, ok := j.Data[2].([]byte); ok && len(p) >= 16 {
+			return binary.LittleEndian.Uint32(p[12:16])
+		}
+	}
+	return j.RequestID
+}
+
 func (s *jqState) describe(j agent.Job) jqJob {
+	wrapped := j.Command == agent.COMMAND_PIVOT
+	j.RequestID = reqOf(j)
 	id, ok := s.reqID[j.RequestID]
 	if !ok {
 		id = s.nextID
 		s.nextID++
 		s.reqID[j.RequestID] = id
+	}
+	if wrapped {
+		d := jqJob{ID: id, Sz: countedSize(j), Kind: "raw"}
+		if s.opReq[j.RequestID] {
+			d.Kind = "op"
+		}
+		return d
 	}
 	d := jqJob{ID: id, Sz: countedSize(j), Kind: "raw"}
 	switch {
@@ -165,7 +190,7 @@ func (s *jqState) input(nameID string, info map[string]any) {
 }
 
 // RunJobQueue replays behaviours of JobQueue.tla on a fresh teamserver each.
-func RunJobQueue(behs [][]Step, tr *Trace, scratch string, seed int64, sum *Summary) {
+func RunJobQueue(behs [][]Step, tr *Trace, scratch string, seed int64, sum *Summary, pivot bool) {
 	for bi, beh := range behs {
 		func() {
 			w, err := world.New(scratch, world.Options{})
@@ -173,7 +198,7 @@ func RunJobQueue(behs [][]Step, tr *Trace, scratch string, seed int64, sum *Summ
 			defer w.Close()
 			s := &jqState{w: w, seed: seed, agents: map[string]uint32{}, nextID: 1, nextReq: 0x1000, reqID: map[uint32]int{},
 				fileSym: map[uint32]int{}, nextFil: 1, uploads: map[uint32][]byte{}, deliv: map[int]bool{}, chunks: map[string][]chunkSeen{},
-				useReq: map[uint32]bool{}, opReq: map[uint32]bool{}, content: map[int][]byte{}, b64: map[int]string{}}
+				useReq: map[uint32]bool{}, opReq: map[uint32]bool{}, content: map[int][]byte{}, b64: map[int]string{}, parents: map[string]uint32{}}
 			rng := rand.New(rand.NewSource(seed + int64(bi)*1000003))
 			for i, sym := range []string{"a1", "a2"} {
 				id := uint32(rng.Int63n(0x7ffffff0)) + 1
@@ -183,6 +208,19 @@ func RunJobQueue(behs [][]Step, tr *Trace, scratch string, seed int64, sum *Summ
 					panic(fmt.Sprintf("harness-error: registration of %s failed: %+v", sym, r))
 				}
 				s.agents[sym] = id
+				if pivot {
+					// the agent of the behaviour sits behind this one (SMB pivot): its tasks wait, wrapped, in this one's queue
+					cid := id + 0x1000
+					ck := world.KeysFor(seed+int64(bi), i+10, false)
+					b := &refdemon.Buf{}
+					b.I32(refdemon.PivotSmbConnect).I32(1).Bytes(refdemon.Register(cid, ck, refdemon.DefaultMeta(sym+"c")))
+					w.Request(refdemon.Packages(id, k, []refdemon.Sub{{Cmd: refdemon.CmdPivot, Body: b.B}}))
+					if c := w.Agent(cid); c == nil || c.Pivots.Parent == nil {
+						panic("harness-error: pivot setup failed")
+					}
+					s.parents[sym], s.agents[sym] = id, cid
+					w.Keys[cid] = ck
+				}
 			}
 			tr.Emit(map[string]any{"ev": "Reset"})
 			steps := append([]Step{}, beh...)
@@ -261,6 +299,9 @@ func (s *jqState) step(st Step, bi, si int, sum *Summary) map[string]any {
 	case "Clear":
 		s.input(ag.NameID, map[string]any{"CommandID": "Teamserver", "Command": "task::clear", "TaskID": "0000AAAA", "CommandLine": "task clear"})
 	case "CheckIn":
+		if p, ok := s.parents[a]; ok {
+			id = p // the agent in front checks in and is handed the wrapped tasks
+		}
 		k := s.w.Keys[id]
 		var body []byte
 		if arg == 1 {
@@ -299,6 +340,19 @@ func (s *jqState) step(st Step, bi, si int, sum *Summary) map[string]any {
 		fileOK := true
 		for _, t := range tasks {
 			j := jqJob{Sz: len(t.Body), Kind: "raw"}
+			if t.Cmd == refdemon.CmdPivot { // [SMB_COMMAND][agent behind][wrapped task]: identified by the wrapped task's request id
+				rd := &refdemon.Rd{B: t.Body}
+				rd.I32()
+				rd.I32()
+				if p := rd.Bytes(); rd.Err == nil && len(p) >= 20 {
+					t.Req = binary.LittleEndian.Uint32(p[12:16])
+					t.Cmd = binary.LittleEndian.Uint32(p[8:12])
+					// the wrapped task's body is under the key of the agent behind
+					if n := int(binary.LittleEndian.Uint32(p[16:20])); 20+n <= len(p) {
+						t.Body = refdemon.CTR(s.w.Keys[s.agents[a]], p[20:20+n])
+					}
+				}
+			}
 			aid, known := s.reqID[t.Req]
 			j.ID = aid
 			if !known {
@@ -384,6 +438,6 @@ func firstLines(s string, n int) string {
 
 func init() {
 	Modules["jobqueue"] = func(behs [][]Step, tr *Trace, env Env, sum *Summary) {
-		RunJobQueue(behs, tr, env.Scratch, env.Seed, sum)
+		RunJobQueue(behs, tr, env.Scratch, env.Seed, sum, env.Mode == "pivot")
 	}
 }
